@@ -57,7 +57,13 @@ fn path(r: &mut Rng, closed: bool) -> Vec<[f64; 3]> {
         let m = m.max(4); let tilt = if r.coin() { 0.0 } else { r.uniform(-1.0, 1.0) }; let (ra, rb) = (r.uniform(20.0, 40.0), r.uniform(20.0, 40.0));
         return (0..m).map(|i| { let a = (360.0 * i as f64 / m as f64).to_radians(); [ra * a.cos(), rb * a.sin(), tilt * ra * a.cos()] }).collect();
     }
-    match r.below(6) {
+    match r.below(7) {
+        6 => { // axis-aligned polyline with right angles (L, U, staircase shapes)
+               let axes: [[f64; 3]; 6] = [[1.0, 0.0, 0.0], [-1.0, 0.0, 0.0], [0.0, 1.0, 0.0], [0.0, -1.0, 0.0], [0.0, 0.0, 1.0], [0.0, 0.0, -1.0]];
+               let mut p = [0.0, 0.0, 0.0]; let mut out = vec![p]; let mut last = 99usize;
+               for _ in 1..m.max(3) { let mut k = r.below(6) as usize; while k / 2 == last / 2 { k = r.below(6) as usize; } last = k;
+                   let l = *r.pick(&[10.0, 20.0, 30.0]); p = [p[0] + axes[k][0] * l, p[1] + axes[k][1] * l, p[2] + axes[k][2] * l]; out.push(p); }
+               out }
         0 => { let axes: [[f64; 3]; 6] = [[1.0, 0.0, 0.0], [-1.0, 0.0, 0.0], [0.0, 1.0, 0.0], [0.0, -1.0, 0.0], [0.0, 0.0, 1.0], [0.0, 0.0, -1.0]];
                let d = *r.pick(&axes); let o = [r.cad(), r.cad(), r.cad()];
                (0..m).map(|i| [o[0] + d[0] * 10.0 * i as f64, o[1] + d[1] * 10.0 * i as f64, o[2] + d[2] * 10.0 * i as f64]).collect() }
